@@ -32,6 +32,12 @@ func (c *ColBool) DecodeColumn(r *Reader, rows int) error {
 	if err := r.ReadFull(dst); err != nil {
 		return errors.Wrap(err, "read full")
 	}
+	// Only 0 and 1 are valid encodings of Bool (and valid Go bools).
+	for i, v := range dst {
+		if v > boolTrue {
+			return errors.Errorf("[%d]: bad value %d for Bool", i, v)
+		}
+	}
 	return nil
 }
 
